@@ -232,7 +232,7 @@ fn do_alloc(sess: &Sess, s: i64, al: usize, api: &str, zeroed: bool) -> Got {
                 }
             }, {});
         }
-        "str" => {
+        "str" | "strrep" => {
             if al == 1 && s > 0 {
                 if sess.certainly_fits(sz, 1) {
                     let st = ArenaString::with_capacity_in(sz, a);
@@ -273,15 +273,20 @@ fn do_grow(sess: &Sess, b: &Blk, s: i64, api: &str) -> Got {
                 }
             }, {});
         }
-        "str" => {
+        "str" | "strrep" => {
             if al == 1 && s > 0 && old > 0 {
                 let mut st = unsafe { ArenaString::from_raw_parts(NonNull::new_unchecked(b.ptr), old, a) };
                 // push_str grows amortised (at least twice the old capacity) and aborts on failure
                 let amortised = nsz.max(old * 2).max(8);
                 if sess.certainly_fits(amortised, 1) {
                     let extra = "x".repeat(nsz - old);
-                    // keep the old contents comparable: ArenaString only appends
-                    st.push_str(&extra);
+                    // keep the old contents comparable: append, through push_str or through the replace family
+                    // (replace_range with an empty range at the end; both grow the block when it is full)
+                    if api == "strrep" {
+                        st.replace_range(old..old, &extra);
+                    } else {
+                        st.push_str(&extra);
+                    }
                     let (p, c) = (st.as_ptr() as usize, st.capacity());
                     mem::forget(st);
                     return Got::ok(p, c, "str_push");
@@ -332,7 +337,7 @@ fn do_shrink(sess: &Sess, b: &Blk, s: i64, api: &str) -> Got {
                 }
             }, {});
         }
-        "str" => {
+        "str" | "strrep" => {
             if al == 1 && nsz > 0 {
                 let mut v: Vec<u8, &Arena> = unsafe { Vec::from_raw_parts_in(b.ptr, nsz, old, a) };
                 for x in v.iter_mut() {
